@@ -17,8 +17,8 @@ from . import coqlit as L
 from .core import Relation, err_kind
 
 PROP = "C14"
-CLAIMED = False
-COQ_MODULES = ["C14_Check", "C14_Proofs"]
+CLAIMED = True
+COQ_MODULES = ["C14_Check", "C14_Proofs", "C14_CheckVcf", "C14_ProofsVcf"]
 PROPERTY_MODULE = "C14_Property"
 ALLOWED_AXIOMS = []
 RULE = (
@@ -243,7 +243,205 @@ class Kernel(Relation):
         return "kernel reference haplotype handed out twice: " + (",".join(sorted(kinds)) or "none (model disagreement)")
 
 
-RELATIONS = [Kernel()]
+class Norep(Relation):
+    """output_vcf(no_replacement=True) end to end; case type, runner and model are C03's."""
+    name = "norep"
+    coq_module = "C14_CheckVcf"
+    coq_check = "check_norep"
+    coq_case_type = "ocase"
+    coq_model = "model_norep"
+    coq_imports = ["Tracts", "C01_Model", "C14_Model", "C03_Model", "C03_Check"]
+    budget = {"quick": 160, "thorough": 3000}
+    max_cases_per_shard = 40
+    anchors = [
+        ("haptools/sim_genotype.py", "output_vcf"),
+        ("haptools/sim_genotype.py", "_convert_haplotype"),
+        ("haptools/sim_genotype.py", "_find_random_sample"),
+        ("haptools/sim_genotype.py", "_find_coord"),
+    ]
+
+    def preamble(self):
+        return "Import C03_Check."
+
+    def generate(self, rng, n, tier):
+        from . import c03
+
+        out = []
+        while len(out) < n:
+            c = c03.gen_case(rng, tier, want_norep=True)
+            if c03.covered(c):
+                out.append(c)
+        return out
+
+    def run_impl(self, inp):
+        from . import c03
+
+        return c03.run_output_vcf(inp)
+
+    def encode(self, inp, obs):
+        from . import c03
+
+        draws = obs.get("draws") if isinstance(obs, dict) else None
+        if not draws:
+            draws = {"choice": [], "strand": [], "shuffle": [], "ok": False}
+        return f"(C03_Check.mko {c03.config_term(inp, draws)} {c03.obs_term(inp, obs)})"
+
+    @staticmethod
+    def _contended(inp):
+        """two simulated haplotypes hold blocks of one population on one chromosome whose intervals share a position"""
+        blocks = []
+        for h, hap in enumerate(inp["bps"]):
+            for c in inp["chroms"]:
+                prev = -1
+                for t in hap:
+                    if t[1] == c:
+                        blocks.append((h, c, t[0], prev + 1, t[2]))
+                        prev = t[2]
+        for i, (h, c, p, a, b) in enumerate(blocks):
+            for h2, c2, p2, a2, b2 in blocks[:i]:
+                if h != h2 and (c, p) == (c2, p2) and max(a, a2) <= min(b, b2):
+                    return True
+        return False
+
+    def nontrivial(self, inp, obs):
+        return inp["kind"] == "wellformed" and self._contended(inp)
+
+    def classes(self, inp, obs):
+        out = [inp["kind"], "ref=" + inp["ref"]["fmt"], "out=" + inp["out"]]
+        if self._contended(inp):
+            out.append("haplotypes-compete-for-a-population")
+        if isinstance(obs, dict) and "failed" in obs:
+            out.append(f"raised-{obs['failed'].get('cls')}")
+        elif isinstance(obs, dict) and "out" in obs:
+            out.append("completed")
+        return out
+
+    def shrink(self, inp):
+        from . import c03
+
+        yield from c03.Vcf().shrink(inp)
+
+    def mutate(self, inp, rng):
+        for _ in range(6):
+            yield dict(inp, seed=int(rng.integers(1, 2**31 - 1)))
+
+    def signature(self, inp, obs):
+        if not isinstance(obs, dict) or "out" not in obs:
+            return "norep output_vcf did not complete / not observed"
+        o = obs["out"]
+        dup = False
+        for j in range(len(o["vars"])):
+            col = [row[j] for row in o["gt"]]
+            if len(set(col)) < len(col):
+                dup = True
+        return "norep " + ("one reference haplotype copied into two simulated haplotypes at a variant" if dup
+                           else "no duplicate provenance (model disagreement)")
+
+
+class Params(Relation):
+    """validate_params: --no_replacement needs >= num_samples sample-info lines per model population."""
+    name = "params"
+    coq_module = "C14_CheckVcf"
+    coq_check = "check_params"
+    coq_case_type = "pcase"
+    coq_model = "model_params"
+    coq_imports = ["Tracts", "C01_Model", "C14_Model", "C03_Model", "C03_Check"]
+    budget = {"quick": 150, "thorough": 1500}
+    anchors = [("haptools/sim_genotype.py", "validate_params")]
+
+    def generate(self, rng, n, tier):
+        out = []
+        for _ in range(n):
+            k = int(rng.integers(2, 5))       # validate_params wants at least two source populations
+            ns = int(rng.integers(1, 5))
+            counts = [int(rng.choice([0, ns - 1, ns, ns + 1, 1, 5])) for _ in range(k)]
+            counts = [max(0, c) for c in counts]
+            if rng.random() < 0.8:
+                counts = [max(1, c) for c in counts]
+            out.append({"ns": ns, "counts": counts, "other": int(rng.integers(0, 3)), "norep": bool(rng.random() < 0.7),
+                        "pgen": bool(rng.random() < 0.2)})
+        return out
+
+    def exhaustive(self, tier):
+        import itertools
+
+        out = []
+        for ns in (1, 2, 3):
+            for counts in itertools.product([1, 2, 3, 4], repeat=2):
+                for norep in (False, True):
+                    out.append({"ns": ns, "counts": list(counts), "other": 1, "norep": norep, "pgen": False})
+        return out
+
+    def run_impl(self, inp):
+        import os
+        import shutil
+        import tempfile
+
+        import haptools.sim_genotype as sg
+        from . import c03
+
+        d = tempfile.mkdtemp(prefix="hv_c14p_")
+        try:
+            k = len(inp["counts"])
+            nref = sum(inp["counts"]) + inp["other"] + 1
+            panel_inp = {"ref": {"nref": nref, "vars": [[False, 1, 10]], "nalleles": [2],
+                                 "data": [[[0, 1]] for _ in range(nref)], "fmt": "pgen" if inp["pgen"] else "vcf.gz"}}
+            panel, _ = c03.write_panel(panel_inp, d)
+            pops = [f"P{i + 1}" for i in range(k)]
+            model = os.path.join(d, "model.dat")
+            with open(model, "w") as f:
+                f.write(f"{inp['ns']}\tAdmixed\t" + "\t".join(pops) + "\n1\t0\t" + "\t".join(["1"] + ["0"] * (k - 1)) + "\n")
+            info = os.path.join(d, "info.tab")
+            r = 0
+            with open(info, "w") as f:
+                for p, c in zip(pops, inp["counts"]):
+                    for _ in range(c):
+                        f.write(f"R{r}\t{p}\n")
+                        r += 1
+                for _ in range(inp["other"]):
+                    f.write(f"R{r}\tOTHER\n")
+                    r += 1
+            mapdir = os.path.join(d, "map")
+            os.makedirs(mapdir)
+            with open(os.path.join(mapdir, "g.chr1.map"), "w") as f:
+                f.write("1\t.\t0.0\t5\n1\t.\t1.0\t50\n")
+            try:
+                sg.validate_params(model, mapdir, ["1"], 10, panel, info, inp["norep"])
+                return {"raised": False}
+            except Exception as e:  # noqa
+                return {"raised": True, "cls": type(e).__name__, "msg": str(e)[:160]}
+        finally:
+            shutil.rmtree(d, ignore_errors=True)
+
+    def encode(self, inp, obs):
+        raised = obs.get("raised")
+        if raised is None:
+            raised = True if "__exc__" in obs else False
+        return f"(mkp {L.z(inp['ns'])} {L.b(inp['norep'])} {L.zl(inp['counts'])} {L.b(raised)})"
+
+    def nontrivial(self, inp, obs):
+        return inp["norep"] and any(c in (inp["ns"] - 1, inp["ns"]) for c in inp["counts"])
+
+    def classes(self, inp, obs):
+        out = ["norep" if inp["norep"] else "replacement", "pgen" if inp["pgen"] else "vcf"]
+        if any(c < inp["ns"] for c in inp["counts"]):
+            out.append("too-few-samples-in-a-population")
+        if any(c == inp["ns"] for c in inp["counts"]):
+            out.append("exactly-enough")
+        if obs.get("raised"):
+            out.append("rejected")
+        return out
+
+    def shrink(self, inp):
+        if len(inp["counts"]) > 2:
+            for j in range(len(inp["counts"])):
+                yield dict(inp, counts=inp["counts"][:j] + inp["counts"][j + 1:])
+
+    def signature(self, inp, obs):
+        return "params validate_params accepts --no_replacement with fewer samples in a population than simulated samples"
+
+
+RELATIONS = [Kernel(), Norep(), Params()]
 
 LEVEL_TEXT = (
     "Coq theorems over all histories of _find_coord/_find_random_sample calls and all shuffles (no size bound) about a "
